@@ -27,3 +27,23 @@ claim("C15", "exploration",
       "exhaustive enumeration of names x spellings and of all chains of length <= 3 for the name laws, plus rapid-drawn mixed-case chains; differential oracle against the canonical spelling",
       "Every spelling must produce the canonical spelling's exact stream and decode; name<->type laws enumerated exhaustively for chains up to 3.",
       "Trusts: cases whose canonical spelling does not round-trip are C01's business and are skipped (counted).", "DESIGN.md 4/C15")
+claim("C02", "exploration",
+      "property-based testing (rapid) with structure-aware payload mutation positioned by an independent container parser; prefix oracle over all Read calls incl. after errors; exhaustive single-bit sweep on small streams",
+      "Checksummed streams are damaged strictly inside block payloads (bit flips, substitutions, swaps, zero runs, copies, and whole-block splices that keep the stored hash) and everything the reader ever returns must stay a prefix of the original; an undetected change must not exist.",
+      "Trusts: 32-bit hash collisions are negligible (2^-32 per damaged block); kfmt only positions mutations.", "DESIGN.md 4/C02")
+claim("C08", "fault_enumeration",
+      "fault injection enumerated exhaustively over the index k of every underlying sink Write/Close and source Read call of rapid-drawn scenarios; caller-model variants after the error",
+      "For each generated scenario every fault index up to the fault-free call count is injected (transient/sticky, 0-byte or prefix accept, (n>0,err) reads), and the API must report it: no success for an incomplete sink, no clean EOF for incomplete output, no panic.",
+      "Trusts: faults occur only at the io.Writer/io.Reader/io.Closer boundary; fault-free call counts define the enumeration bound.", "DESIGN.md 4/C08")
+claim("C09", "exploration",
+      "exhaustive enumeration of cut positions over rapid-drawn small streams, boundary-focused + random cuts for larger ones; error-or-nothing oracle",
+      "Every strict prefix of generated valid streams (all positions for streams <= 8 KiB) must end in a non-EOF error with only prefix bytes delivered.",
+      "Trusts: always-filling source; kfmt only selects boundary cuts for large streams.", "DESIGN.md 4/C09")
+claim("C11", "exploration",
+      "exhaustive enumeration of all block ranges over rapid-drawn streams of 1..12 blocks (plus 60..140-block streams), slice oracle and listener-based skip oracle",
+      "All (from,to) ranges incl. empty / beyond-the-end / one-sided, for reader jobs 1..8, must return exactly the addressed slice and never decode a block outside the range.",
+      "Trusts: block-distinguishable data; BEFORE_ENTROPY listener events as the witness of decoding.", "DESIGN.md 4/C11")
+claim("C17", "exploration",
+      "model-based property testing (rapid): random API call histories on Writer and Reader checked step by step against a small reference state machine, with transient sink faults",
+      "Generated histories (zero-length and batch-crossing writes, repeated Close, calls after Close, GetWritten/GetRead probes, armed one-shot sink failures) are compared after every call with the documented state machine.",
+      "Trusts: single-goroutine use per object; the single-Write stream as reference for the accepted bytes.", "DESIGN.md 4/C17")
